@@ -90,41 +90,45 @@ Definition opt_is (ch : option N) (c : N) : bool := match ch with Some x => N.eq
 Definition opt_digit (ch : option N) : bool := match ch with Some x => c_isdigit x | None => false end.
 
 (* ch is the first character ('+', '-' or a digit), cs the rest of the input.
-   Result: the NUL-less representation, its kind, and the remaining input. *)
-Definition scan_number (ch : N) (cs : bytes) : bytes * numkind * bytes :=
-  let '(acc, ch, cs) :=
-    if (N.eqb ch 43 || N.eqb ch 45)%bool
-    then match cs with c :: r => ([ch], c, r) | [] => ([ch], 0%N, []) end
-    else ([], ch, cs) in
-  let '(base, ch, cs) :=
-    if N.eqb ch 48 then
-      match cs with
-      | c :: r => if (N.eqb c 120 || N.eqb c 88)%bool
-                  then match r with c2 :: r2 => (16, c2, r2) | [] => (16, 0%N, []) end
-                  else (8, 48%N, cs)
-      | [] => (8, 48%N, [])
+   Result: the NUL-less representation, its kind, and the remaining input.  The stages follow the
+   C function top to bottom. *)
+Definition sn_sign (ch : N) (cs : bytes) : bytes * N * bytes :=
+  if (N.eqb ch 43 || N.eqb ch 45)%bool
+  then match cs with c :: r => ([ch], c, r) | [] => ([ch], 0%N, []) end
+  else ([], ch, cs).
+
+Definition sn_base (ch : N) (cs : bytes) : Z * N * bytes :=
+  if N.eqb ch 48 then
+    match cs with
+    | c :: r => if (N.eqb c 120 || N.eqb c 88)%bool
+                then match r with c2 :: r2 => (16, c2, r2) | [] => (16, 0%N, []) end
+                else (8, 48%N, cs)
+    | [] => (8, 48%N, [])
+    end
+  else (10, ch, cs).
+
+Definition sn_frac (acc : bytes) (och : option N) (cs : bytes) : bytes * option N * bytes * bool :=
+  if opt_is och 46 then let '(a, o, c) := dec_run 46 cs acc in (a, o, c, true) else (acc, och, cs, false).
+
+Definition sn_exp (acc : bytes) (och : option N) (cs : bytes) (dbl : bool) : bytes * option N * bytes * bool :=
+  if (opt_is och 101 || opt_is och 69)%bool then
+    let '(o1, c1) := next_char cs in
+    if (opt_is o1 43 || opt_is o1 45)%bool then
+      let sgn := match o1 with Some s => s | None => 0%N end in
+      let '(o2, c2) := next_char c1 in
+      match o2 with
+      | Some d => if c_isdigit d then let '(a, o, c) := dec_run d c2 (sgn :: 101%N :: acc) in (a, o, c, true)
+                  else (sgn :: 101%N :: acc, o2, c2, true)          (* ABSENT_EXPONENT *)
+      | None => (sgn :: 101%N :: acc, None, c2, true)
       end
-    else (10, ch, cs) in
-  let '(acc, och, cs) := num_digits (base =? 16) ch cs acc in
-  let '(acc, och, cs, dbl) :=
-    if opt_is och 46 then let '(a, o, c) := dec_run 46 cs acc in (a, o, c, true) else (acc, och, cs, false) in
-  let '(acc, och, cs, dbl) :=
-    if (opt_is och 101 || opt_is och 69)%bool then
-      let '(o1, c1) := next_char cs in
-      if (opt_is o1 43 || opt_is o1 45)%bool then
-        let sgn := match o1 with Some s => s | None => 0%N end in
-        let '(o2, c2) := next_char c1 in
-        match o2 with
-        | Some d => if c_isdigit d then let '(a, o, c) := dec_run d c2 (sgn :: 101%N :: acc) in (a, o, c, true)
-                    else (sgn :: 101%N :: acc, o2, c2, true)          (* ABSENT_EXPONENT *)
-        | None => (sgn :: 101%N :: acc, None, c2, true)
-        end
-      else match o1 with
-           | Some d => if c_isdigit d then let '(a, o, c) := dec_run d c1 (101%N :: acc) in (a, o, c, true)
-                       else (acc, o1, c1, true)                        (* ABSENT_EXPONENT *)
-           | None => (acc, None, c1, true)
-           end
-    else (acc, och, cs, dbl) in
+    else match o1 with
+         | Some d => if c_isdigit d then let '(a, o, c) := dec_run d c1 (101%N :: acc) in (a, o, c, true)
+                     else (acc, o1, c1, true)                        (* ABSENT_EXPONENT *)
+         | None => (acc, None, c1, true)
+         end
+  else (acc, och, cs, dbl).
+
+Definition sn_finish (base : Z) (acc : bytes) (och : option N) (cs : bytes) (dbl : bool) : bytes * numkind * bytes :=
   let repr := rev acc in
   if dbl then
     if base =? 16 then (repr, NDouble, unget och cs)                  (* NON_DECIMAL_FLOAT, ignored *)
@@ -132,6 +136,16 @@ Definition scan_number (ch : N) (cs : bytes) : bytes * numkind * bytes :=
     else if (opt_is och 108 || opt_is och 76)%bool then (repr, NLdouble, cs)
     else (repr, NDouble, unget och cs)
   else (repr, NInt base, unget och cs).
+
+Definition sn_rest (acc : bytes) (ch : N) (cs : bytes) : bytes * numkind * bytes :=
+  let '(base, ch, cs) := sn_base ch cs in
+  let '(acc, och, cs) := num_digits (base =? 16) ch cs acc in
+  let '(acc, och, cs, dbl) := sn_frac acc och cs in
+  let '(acc, och, cs, dbl) := sn_exp acc och cs dbl in
+  sn_finish base acc och cs dbl.
+
+Definition scan_number (ch : N) (cs : bytes) : bytes * numkind * bytes :=
+  let '(acc, ch, cs) := sn_sign ch cs in sn_rest acc ch cs.
 
 (* ------------------------------------------------------------------ scan_string (after the opening quote) *)
 
